@@ -250,6 +250,36 @@ impl Check for C07Check {
 
     fn generate(&self, seed: u64, index: u64, tier: Tier) -> Case {
         let mut st = streams(seed, "C07", index);
+        if index % 16 == 3 {
+            // Wide family: one flat conde of 9..=11 clauses, all but the last one or two infinite
+            // (producers and silent divergers), the last ones a plain `q == v`. A clause at
+            // position m gets a 1/2^m share, so its answer needs about 2^m quanta: cheap as long
+            // as the goal itself is trivial, and the only way to see what happens to branches
+            // that sit deep in the mplus tree for as long as the search runs.
+            let mut g = Gen { w: &mut st.workload, l: &mut st.leaves, next_leaf: 0 };
+            let n = 9 + g.w.below(3);
+            let finite_tail = 1 + g.w.below(2);
+            let mut clauses: Vec<Vec<G>> = vec![];
+            for i in 0..n {
+                let b = if i + finite_tail >= n {
+                    let id = g.next_leaf;
+                    g.next_leaf += 1;
+                    G::Eq(T::V(0), T::I(1000 + 10 * id as i64))
+                } else if g.w.chance(3, 5) {
+                    g.producer()
+                } else {
+                    g.diverger()
+                };
+                clauses.push(vec![b]);
+            }
+            return Case {
+                property: "C07".into(),
+                oracle: "fair-wide".into(),
+                program: Program { nq: 2, defs: vec![], body: vec![G::Conde(clauses)] },
+                cfg: SimCfg::exact(4_000_000),
+                extra: json!({}),
+            };
+        }
         // nesting 1..3 (3 is rare in the quick tier: the bound grows with 2^levels)
         let depth = match (tier, st.workload.below(8)) {
             (Tier::Thorough, 0..=2) => 3,
@@ -307,7 +337,7 @@ impl Check for C07Check {
     fn valid(&self, case: &Case) -> bool {
         valid::program_ok(&case.program)
             && case.program.nq == 2
-            && (case.oracle == "fair-within-bound") == case.cfg.is_exact()
+            && (case.oracle != "fair-within-bound-perturbed") == case.cfg.is_exact()
     }
 
     fn rule(&self) -> String {
@@ -334,7 +364,15 @@ impl Check for C07Check {
         if alts.is_empty() {
             return CaseResult { verdict: Verdict::Inconclusive("no productive alternative".into()), facts };
         }
-        let k: u64 = if case.cfg.is_exact() { 256 } else { 1024 };
+        // the wide family has trivial goals at known depths: a small constant keeps the budget of a
+        // starved case affordable (see quanta_needed_over_bound under metrics_max in the evidence)
+        let k: u64 = if case.oracle == "fair-wide" {
+            16
+        } else if case.cfg.is_exact() {
+            256
+        } else {
+            1024
+        };
         // run every alternative alone
         let mut need: BTreeMap<i64, usize> = BTreeMap::new();
         let mut bound: u64 = 0;
